@@ -4,7 +4,6 @@ import (
 	"encoding/json"
 	"os"
 	"path/filepath"
-	"regexp"
 	"testing"
 	"time"
 
@@ -31,10 +30,8 @@ import (
 
 const fuzzAnalyzeMax = 4 << 10
 
-// importColon is the generator gate of the open parser hang "import x from a:<lexer error>": an
-// input that hangs leaves a spinning, allocating goroutine behind in the fuzz worker, so while
-// that finding is open such inputs are not executed here (they are in the sandbox tiers).
-var importColon = regexp.MustCompile(`from[^;{}]*:`)
+// Gate "import-hang" (see gatedText): an input that hangs leaves a spinning, allocating goroutine
+// behind in the fuzz worker, so while that finding is open such inputs are not executed here.
 
 func fuzzFail(t *testing.T, name string, c Case, f *pk.Failure) {
 	if f == nil || pk.MatchKnown(pk.Prop(), f) != "" {
@@ -65,13 +62,8 @@ func FuzzParse(f *testing.F) {
 	for _, s := range fuzzSeeds {
 		f.Add(s)
 	}
-	gated := pk.GateOpen("import-colon")
 	f.Fuzz(func(t *testing.T, text string) {
-		if len(text) > maxText {
-			return
-		}
-		if gated && importColon.MatchString(text) {
-			pk.Gate("import-colon")
+		if len(text) > maxText || gatedText(text) {
 			return
 		}
 		c := Case{Kind: "fuzz", Text: text, Variant: "lexparse"}
@@ -118,13 +110,8 @@ func FuzzAnalyze(f *testing.F) {
 	f.Add(entryNamed, "import { f } from m;\npub fn f() {}")
 	f.Add(entryPub, "import { g, v, type T } from main;\npub fn f() { g(); }")
 	f.Add(entryKinds, "pub type T = int; pub type V = T; pub fn f() -> T { 1 } pub fn g() {}")
-	gated := pk.GateOpen("import-colon")
 	f.Fuzz(func(t *testing.T, entry, module string) {
-		if len(entry) > fuzzAnalyzeMax || len(module) > fuzzAnalyzeMax {
-			return
-		}
-		if gated && (importColon.MatchString(entry) || importColon.MatchString(module)) {
-			pk.Gate("import-colon")
+		if len(entry) > fuzzAnalyzeMax || len(module) > fuzzAnalyzeMax || gatedText(entry, module) {
 			return
 		}
 		c := Case{Kind: "fuzz", Text: entry, Module: module, Variant: "entry"}
